@@ -623,3 +623,23 @@ mutant("c19-v3-round-up-consults-sticky-flag", "C19", edits=[
      "        return value.quantize(D(\"0.1\"), rounding=ROUND_HALF_UP)\n"
      "    return value.quantize(D(\"0.1\"), rounding=ROUND_CEILING)\n")],
     note="reads a sticky signal flag of the ambient context, which the caller may have raised long before (the library itself never raises it): v3 scores differ only when the flag is already set")
+
+# ------------------------------------------------------------------------------ C16/C17: a loop that prints and never reads
+mutant("c16-refused-answer-reprinted-forever", "C16", "cvss/interactive.py",
+       "            if input_value in values_by_upper:\n"
+       "                vector.append(metric + \":\" + values_by_upper[input_value])\n"
+       "                break\n",
+       "            while input_value not in values_by_upper:\n"
+       "                print(\"Please answer with one of \" + \"/\".join(values))\n"
+       "            vector.append(metric + \":\" + values_by_upper[input_value])\n"
+       "            break\n",
+       "after an illegal answer the hint is printed in a loop that never reads again: no read cap can see it, only an output cap")
+
+# ------------------------------------------------------------------------------ C17: a spin without any I/O for a rare invalid vector
+mutant("c17-v3-parser-spins-on-double-slash", "C17", "cvss/cvss3.py",
+       "        if self.vector.endswith(\"/\"):\n            raise CVSS3MalformedError('Malformed CVSS3 vector, trailing \"/\"')\n",
+       "        if self.vector.endswith(\"/\"):\n            raise CVSS3MalformedError('Malformed CVSS3 vector, trailing \"/\"')\n"
+       "        fields_text = self.vector\n"
+       "        while \"//\" in fields_text:\n"
+       "            fields_text = fields_text.replace(\"//\", \"//\")  # meant: collapse to one separator for the error message\n",
+       "CVSS3 never returns for a string with an empty field (`//`): no read, no write, nothing a stream cap can see; only the wall limit of an isolated run")
